@@ -93,6 +93,11 @@ class Rig:
         self.dname = dialect
         self.spec = DIALECTS[dialect]
         self.plan = dict(plan or {})
+        # follow-up faults, armed once a planned fault has fired: [(point description,
+        # kind, how many matching points to let pass first), ...] consumed in order - for
+        # histories whose later fault positions only exist because of the earlier fault
+        # (e.g. the connect() of a transparent reconnect)
+        self.chain = []
         self.clock = clock
         self.npoints = 0
         self.points = []          # (index, description)
@@ -158,6 +163,14 @@ class Rig:
         self.npoints += 1
         self.points.append((k, desc, kinds))
         kind = self.plan.get(k)
+        if (kind is None or kind not in kinds) and self.chain and self.fired:
+            d0, k0, skip = self.chain[0]
+            if desc == d0 and k0 in kinds:
+                if skip > 0:
+                    self.chain[0] = (d0, k0, skip - 1)
+                else:
+                    self.chain.pop(0)
+                    kind = k0
         if kind is None or kind not in kinds:
             return None
         self.fired.append((k, desc, kind))
